@@ -1,0 +1,11 @@
+//go:build verif
+
+package wmark
+
+import "time"
+
+// VerifNewWatermarker builds a Watermarker with the given allowed lateness for the verification harness
+// (build tag verif only; the fields are unexported).
+func VerifNewWatermarker(allowedLateness time.Duration) *Watermarker {
+	return &Watermarker{allowedLateness: allowedLateness}
+}
